@@ -63,7 +63,15 @@ func freshBs() match.Bindings {
 	return match.Bindings{"n": map[string]interface{}{"k": float64(1), "deep": map[string]interface{}{"z": []interface{}{}}},
 		"arr": []interface{}{float64(1), float64(2)}, "gone": "here"}
 }
+var propsMode = 0 // 0: nested values, 1: empty, 2: nil (the same for every execution of a case)
+
 func freshProps() core.StepProps {
+	switch propsMode {
+	case 1:
+		return core.StepProps{}
+	case 2:
+		return nil
+	}
 	return core.StepProps{"mid": "m1", "n": map[string]interface{}{"k": float64(1)}, "list": []interface{}{float64(1)}}
 }
 
@@ -112,6 +120,7 @@ func runExec(i *ecmascript.Interpreter, ctx context.Context, bs match.Bindings, 
 func isoCase(id int) O {
 	in := ecmascript.NewInterpreter()
 	ctx := context.Background()
+	propsMode = []int{0, 0, 1, 2}[rng.Intn(4)]
 	bs, props := freshBs(), freshProps()
 	bsBefore, propsBefore := enc.Bs(bs), enc.V(map[string]interface{}(props))
 	compiled := map[string]interface{}{}
@@ -160,7 +169,7 @@ func isoCase(id int) O {
 		}(k)
 	}
 	wg.Wait()
-	return O{"id": id, "kind": "iso", "polluters": seq, "solo": solo, "after": after, "concurrent": conc,
+	return O{"id": id, "kind": "iso", "propsMode": propsMode, "polluters": seq, "solo": solo, "after": after, "concurrent": conc,
 		"bsBefore": bsBefore, "bsAfter": bsAfter, "propsBefore": propsBefore, "propsAfter": propsAfter,
 		"raw": enc.Canon(O{"polluters": names})}
 }
@@ -210,6 +219,9 @@ func timeCase(id int) O {
 		cancelAt := -1
 		if rng.Intn(3) == 0 {
 			cancelAt = rng.Intn(60)
+			if rng.Intn(2) == 0 {
+				deadline = []int{3000, 5000}[rng.Intn(2)] // a distant deadline, cancelled long before it
+			}
 		}
 		viaWalk := rng.Intn(4) == 0
 		res[k] = one{Script: name, DeadlineMs: deadline, CancelMs: cancelAt, ViaWalk: viaWalk}
